@@ -123,7 +123,7 @@ def r16_2(ctx):
     from .common import pm_of
 
     pm = pm_of(p, fi)
-    pk = pm.find("if fetch_att_tok == ParseFetchAtt.BODY_PEEK:\n    peek = True\n    ...\nelse:\n    peek = False")
+    pk = pm.find("if fetch_att_tok == ParseFetchAtt.BODY_PEEK:\n    ...\n    peek = True\n    ...\nelse:\n    ...\n    peek = False\n    ...")
     sc0 = pm.find("section = self._p_section()")
     ctx.require(pk is not None and sc0 is not None, "_p_fetch_att: peek/section computation not found")
     peek_var, sect_var = pm.name("peek"), pm.name("section")
